@@ -110,7 +110,7 @@ def gen_skel(r, depth, budget):
             return ["W", "0", "1", "Z"] + tb, src
         return ["W", "1"] + tb, src      # with / filter block / block set: inner frame and a visitor scope
     if k < 0.84:
-        ps = [r.choice([10, 11, 12, 2, 3, 8, 9]) for _ in range(r.randint(0, 3))]
+        ps = [r.choice([10, 11, 12, 2, 3, 8, 9, 1]) for _ in range(r.randint(0, 3))]
         tb, sb = body()
         budget[1] += 1
         return (["M", str(len(ps))] + [str(x) for x in ps] + tb,
